@@ -60,7 +60,7 @@ def typing_obligations(run, prop, rule, repo, sc, scen, mods=None):
     return n
 
 
-def raised_finding(run, prop, rule, repo, entry_qual, scen, r):
+def raised_finding(run, prop, rule, repo, entry_qual, scen, r, instance=None):
     """the scenario lies in the property's quantifier, so an exception raised by the code is a violation"""
     fn = r.fn
     where = repo.fn(entry_qual).where
@@ -68,7 +68,7 @@ def raised_finding(run, prop, rule, repo, entry_qual, scen, r):
     cons = norm_text(r.node, 150) if r.node is not None else '?'
     run.add(Finding(prop, rule, where, f'{r.exc_type} at {fn.where if fn else "?"}: {cons}',
                     f'{entry_qual} raises {r.exc_type}: {r.message} ({scen}); path: {path}', fn.file if fn else None, getattr(r.node, 'lineno', None),
-                    {'scenario': scen, 'path': r.path}))
+                    {'scenario': scen, 'path': r.path, **({'instances': [instance]} if instance else {})}))
 
 
 def invariant_obligation(run, prop, rule, repo, sc, obj, entry_qual, scen, what='returned tensor train', chain=True):
